@@ -84,6 +84,9 @@ type concCase struct {
 	// Free marks a part B case (free-running under the race detector); Reps is how often the set is run.
 	Free bool `json:"free,omitempty"`
 	Reps int  `json:"reps,omitempty"`
+	// NoYieldDigest: do not observe the shared objects at yield points (only at the end), so that the observer does
+	// not initialise lazily built state ahead of the tasks.
+	NoYieldDigest bool `json:"no_yield_digest,omitempty"`
 }
 
 // ---------------------------------------------------------------------------------------------------------
@@ -465,14 +468,17 @@ func taskClass(t drive.CTask) string {
 // runScheduled runs one part A case (explicit picks or a policy) and checks oracles O and I.
 func (s concurrent) runScheduled(c *Ctx, cs concCase, pick func(step int, runnable []int, last int) int, solo []string) (picks []int, switches int) {
 	w := drive.BuildIonWorld(cs.World)
-	before := w.Digest()
-	quick := w.QuickDigest()
+	// The reference observations come from a twin world, so that observing does not itself warm up whatever the
+	// shared objects initialise lazily before the tasks get to them.
+	twin := drive.BuildIonWorld(cs.World)
+	before := twin.Digest()
+	quick := twin.QuickDigest()
 	outs := make([]string, len(cs.Tasks))
 	sched := &sim.Sched{Pick: pick}
 	digestFail := ""
 	sched.AtYield = func(step, task int, seam string) {
 		c.Steps++
-		if digestFail == "" {
+		if digestFail == "" && !cs.NoYieldDigest {
 			if q := w.QuickDigest(); q != quick {
 				digestFail = fmt.Sprintf("after step %d (task %d %s at %s): quick digest %q, was %q", step, task, taskClass(cs.Tasks[task]), seam, trunc(q, 300), trunc(quick, 300))
 			}
@@ -537,7 +543,7 @@ func (s concurrent) runFree(c *Ctx, cs concCase, soloFn func() []string) {
 	var all []repOut
 	for rep := 0; rep < reps; rep++ {
 		w := drive.BuildIonWorld(cs.World)
-		before := w.Digest()
+		before := drive.BuildIonWorld(cs.World).Digest() // from a twin: observing must not warm up the shared objects
 		outs := make([]string, len(cs.Tasks))
 		var wg sync.WaitGroup
 		start := make(chan struct{})
@@ -620,6 +626,7 @@ func (s concurrent) Run(c *Ctx, i int) {
 		}
 		run := cs
 		run.Policy = pol.kind
+		run.NoYieldDigest = q%2 == 1
 		picks, switches := s.runScheduled(c, run, pol.Pick, solo)
 		c.Count("sched.runs", 1)
 		c.Count("sched.policy."+pol.kind, 1)
